@@ -257,6 +257,13 @@ def judge_fine(case):
         return {"viol": [], "nontrivial": False, "tags": ["fine-ramp:skipped-extreme-position"], "skipped": "extreme-position"}
     base = int(u * 10 ** 7)  # floor to 7 decimals
     viol = []
+    # the same unit under weights whose TOTAL is huge (2^33, integer weights) with the boundary half a grid point above /
+    # below its position: a position must not depend on the magnitude of the weights
+    for j16, want in ((2 * k + 1, "lo"), (2 * k - 1, "hi")):
+        got = c03._two_group_big(j16, salt)(uid=uid)
+        if got != want:
+            viol.append("unit %r (grid point %d): with integer weights %d : %d (total 2^33) it must be in %r, got %r"
+                        % (uid, k, j16, (1 << 33) - j16, want, got))
     prev = None
     fam = []
     for d in case["steps"]:
